@@ -46,4 +46,17 @@ theorem count_pos_of_get_some {m : PMap w V} (h : m.Inv) (q : Pfx w) (hq : (m.ge
   have hq' : (m.root.get q).isSome = true := hq
   rw [h.count]; simp [hq'] at this; omega
 
+
+/-- value insertion / removal through a mutable view (`TrieViewMut::set`, `TrieViewMut::remove`) on
+any view that addresses an existing node keeps `len()` right; histories containing them
+(`Op.viewSet`, `Op.viewRemove`) are covered by `len_after_any_history` -/
+theorem viewSet_preserves {m : PMap w V} (h : m.Inv) {v : View w} (hg : View.Good m.root v) (x : V) :
+    (m.viewSet v x).1.Inv := viewSet_inv h hg x
+theorem viewRemove_preserves {m : PMap w V} (h : m.Inv) {v : View w} (hg : View.Good m.root v) :
+    (m.viewRemove v).1.Inv := viewRemove_inv h hg
+
+/-- non-vacuity: `set` on the value-less branching node above two entries adds an entry -/
+example : ((((PMap.empty : PMap 8 Nat).insert ⟨0x00#8, 2, by omega⟩ 1).1.insert ⟨0x40#8, 2, by omega⟩ 2).1.viewSetAt
+    ⟨0x00#8, 1, by omega⟩ [] 9).len = 3 := by decide
+
 end PT.C04
